@@ -313,8 +313,15 @@ class Interp:
             return out
         if isinstance(e, ast.Dict):
             out = []
+            exact = getattr(d, "exact_dicts", False) and all(isinstance(k, ast.Constant) for k in e.keys)
             for r in self.eval_list([x for x in list(e.keys) + list(e.values) if x is not None], st, fr):
-                out.append(r if r.kind == "exc" else val(EMPTY if not e.keys else NONEMPTY, r.state))
+                if r.kind == "exc":
+                    out.append(r)
+                elif exact:
+                    vals_ = r.value[len(e.keys):]
+                    out.append(val(("kwdict", tuple((k.value, v) for k, v in zip(e.keys, vals_))), r.state))
+                else:
+                    out.append(val(EMPTY if not e.keys else NONEMPTY, r.state))
             return out
         if isinstance(e, ast.Subscript):
             out = []
@@ -416,7 +423,7 @@ class Interp:
         arg = call.args[0]
         if not isinstance(arg, (ast.Name, ast.ListComp, ast.GeneratorExp, ast.Tuple, ast.List, ast.Call)):
             return None
-        rs = self.eval(arg, st, fr)
+        rs = self._forced(self.eval(arg, st, fr), fr)
         if any(r.kind == "val" and self._exact_elements(r.value) is None for r in rs):
             if isinstance(arg, ast.Call):
                 # the argument was evaluated (its effects are in rs): finish the call with an unknown result
@@ -953,7 +960,7 @@ class Interp:
     def _for(self, s, st, fr):
         out = []
         d = self.domain
-        for r in self.eval(s.iter, st, fr):
+        for r in self._forced(self.eval(s.iter, st, fr), fr):
             if r.kind == "exc":
                 out.append(("raise", r.value, r.state))
                 continue
@@ -1002,6 +1009,21 @@ class Interp:
                 out.extend(self.exec_block(s.orelse, exits, fr) if s.orelse else [("next", None, e) for e in exits])
         return self._dd(out)
 
+    def _forced(self, results, fr):
+        """Let the domain turn lazy sequence values (map objects ...) into exact ones, running their effects now."""
+        hook = getattr(self.domain, "force_sequence", None)
+        if hook is None:
+            return results
+        out = []
+        for r in results:
+            if r.kind == "val":
+                got = hook(self, r.value, r.state, fr)
+                if got is not None:
+                    out.extend(got)
+                    continue
+            out.append(r)
+        return out
+
     def _exact_elements(self, value):
         """Element values of an abstract sequence whose length and order are known, else None."""
         hook = getattr(self.domain, "iter_exact", None)
@@ -1041,7 +1063,7 @@ class Interp:
             return None
         gen = comp.generators[0]
         out = []
-        for r in self.eval(gen.iter, st, fr):
+        for r in self._forced(self.eval(gen.iter, st, fr), fr):
             if r.kind == "exc":
                 out.append(r)
                 continue
